@@ -5,13 +5,15 @@ from engine.checks import c_common, c17
 
 
 def tasks(tier):
-    return c17.tasks(tier)
+    from engine.checks import c15, c20
+    return c17.tasks(tier) + c15.tasks(tier, sorted(set(c15.FUNCS +
+                                                        c20.FUNCS)))
 
 
 def run(report, tier, seed):
     reps = cside.run_tasks(tasks(tier))
     c_common.feed(report, reps, c_common.SAFETY_KINDS)
-    c_common.install_replayer(report)
+    c_common.install_replayer(report, dense=True)
     report.floor = 200
     report.assumptions += [
         'reference-BLAS footprint contracts (contracts/c/extern_blas.py)',
